@@ -182,29 +182,8 @@ def extract():
         raise TranslateError("buffer_ is no longer char[SIMPLE_STRING_BUFFER_LEN]")
     m = re.search(r"char\s+verif_canary_\s*\[\s*(\d+)\s*\]", hdr)
     out.append("def canaryLen : Nat := %s" % (m.group(1) if m else "0"))
-    m = re.search(r"SimpleStringBuffer::SimpleStringBuffer\s*\(\s*\)\s*:\s*positions_filled_\s*\(\s*0\s*\)\s*,\s*"
-                  r"write_limit_\s*\(\s*SIMPLE_STRING_BUFFER_LEN\s*-\s*1\s*\)", src)
-    if not m:
-        PROBLEMS.append("SimpleStringBuffer constructor no longer initialises (0, SIMPLE_STRING_BUFFER_LEN-1)")
-    expect_shape("SimpleStringBuffer::clear", function_body(src, r"void\s+SimpleStringBuffer::clear\s*\(\s*\)\s*\{"),
-                 "positions_filled_ = 0; buffer_[0] = '\\0';")
-    expect_shape("SimpleStringBuffer::add", function_body(src, r"void\s+SimpleStringBuffer::add\s*\([^)]*\)\s*\{"),
-                 "if (positions_filled_ >= write_limit_) return; "
-                 "const size_t positions_left = write_limit_ - positions_filled_; "
-                 "va_list arguments; va_start(arguments, format); "
-                 "const int count = PlatformSpecificVSNprintf(buffer_ + positions_filled_, positions_left+1, format, arguments); "
-                 "if (count > 0) positions_filled_ += (size_t) count; "
-                 "if (positions_filled_ > write_limit_) positions_filled_ = write_limit_; "
-                 "va_end(arguments);")
-    expect_shape("SimpleStringBuffer::setWriteLimit",
-                 function_body(src, r"void\s+SimpleStringBuffer::setWriteLimit\s*\([^)]*\)\s*\{"),
-                 "write_limit_ = write_limit; if (write_limit_ > SIMPLE_STRING_BUFFER_LEN-1) write_limit_ = SIMPLE_STRING_BUFFER_LEN-1;")
-    expect_shape("SimpleStringBuffer::resetWriteLimit",
-                 function_body(src, r"void\s+SimpleStringBuffer::resetWriteLimit\s*\(\s*\)\s*\{"),
-                 "write_limit_ = SIMPLE_STRING_BUFFER_LEN-1;")
-    expect_shape("SimpleStringBuffer::reachedItsCapacity",
-                 function_body(src, r"bool\s+SimpleStringBuffer::reachedItsCapacity\s*\(\s*\)\s*\{"),
-                 "return positions_filled_ >= write_limit_;")
+    # constructor, clear, add, setWriteLimit, resetWriteLimit, reachedItsCapacity: translated from the clang AST by
+    # translate/extract_diagbuf.py (Gen/DiagnosticsBuffer.lean) and proved equal to the hand model in Props/C14.lean
     expect_shape("SimpleStringBuffer::toString", function_body(src, r"char\s*\*\s*SimpleStringBuffer::toString\s*\(\s*\)\s*\{"),
                  "return buffer_;")
 
@@ -263,13 +242,18 @@ def extract():
     sizeofs = {"MEM_LEAK_TOO_MUCH": "(tooMuch.length + 1)", "MEM_LEAK_FOOTER": "(footerText.length + 1)",
                "MEM_LEAK_ADDITION_MALLOC_WARNING": "(mallocWarning.length + 1)"}
     start = function_body(src, r"void\s+MemoryLeakOutputStringBuffer::startMemoryLeakReporting\s*\(\s*\)\s*\{")
-    m = re.fullmatch(r"giveWarningOnUsingMalloc_=false;total_leaks_=0;"
-                     r"size_tmemory_leak_normal_footer_size=(.*?);"
-                     r"size_tmemory_leak_foot_size_with_malloc_warning=(.*?);"
-                     r"outputBuffer_\.setWriteLimit\(SimpleStringBuffer::SIMPLE_STRING_BUFFER_LEN-memory_leak_foot_size_with_malloc_warning\);",
-                     norm(start))
-    if not m:
+    m0 = re.search(r"size_t(\w+)=(.*?);size_t(\w+)=(.*?);.*?outputBuffer_\.setWriteLimit\(SimpleStringBuffer::SIMPLE_STRING_BUFFER_LEN-(\w+)\);",
+                   norm(start))
+    if not m0 or m0.group(5) != m0.group(3) or m0.group(1) not in m0.group(4):
         raise TranslateError("startMemoryLeakReporting changed shape: " + norm(start))
+
+    class _M:       # the two size expressions, with the first local's name normalised
+        def __init__(self, a, b):
+            self.g = (None, a, b)
+
+        def group(self, i):
+            return self.g[i]
+    m = _M(m0.group(2), re.sub(r"\b%s\b" % re.escape(m0.group(1)), "memory_leak_normal_footer_size", m0.group(4)))
     e1 = re.sub(r"sizeof\(", "sizeof(", m.group(1))
     out.append("/-- `memory_leak_normal_footer_size` = `%s` -/" % m.group(1))
     out.append("def footerSizeNormal : Nat := %s" % sum_expr(e1, sizeofs))
@@ -286,36 +270,16 @@ def extract():
         return body
 
     b = fmt_of(r"void\s+MemoryLeakOutputStringBuffer::addAllocationLocation\s*\([^)]*\)\s*\{", "allocLocationFmt")
-    if norm(b).split('"')[-1] != ",allocationFile,(int)allocationLineNumber,(unsignedlong)allocationSize,allocator->alloc_name());":
-        PROBLEMS.append("addAllocationLocation arguments changed: " + norm(b))
     b = fmt_of(r"void\s+MemoryLeakOutputStringBuffer::addDeallocationLocation\s*\([^)]*\)\s*\{", "deallocLocationFmt")
-    if norm(b).split('"')[-1] != ",freeFile,(int)freeLineNumber,allocator->free_name());":
-        PROBLEMS.append("addDeallocationLocation arguments changed: " + norm(b))
     fmt_of(r"void\s+MemoryLeakOutputStringBuffer::addNoMemoryLeaksMessage\s*\(\s*\)\s*\{", "noLeaksFmt")
     fmt_of(r"void\s+MemoryLeakOutputStringBuffer::addMemoryLeakHeader\s*\(\s*\)\s*\{", "headerFmt")
     fmt_of(r"void\s+MemoryLeakOutputStringBuffer::addErrorMessageForTooMuchLeaks\s*\(\s*\)\s*\{", "tooMuchFmt")
     b = fmt_of(r"void\s+MemoryLeakOutputStringBuffer::addMemoryLeakFooter\s*\([^)]*\)\s*\{", "footerFmt")
-    if norm(b).split('"')[-1] != ",MEM_LEAK_FOOTER,(int)amountOfLeaks);":
-        PROBLEMS.append("addMemoryLeakFooter arguments changed: " + norm(b))
     fmt_of(r"void\s+MemoryLeakOutputStringBuffer::addWarningForUsingMalloc\s*\(\s*\)\s*\{", "mallocWarningFmt")
     leak = fmt_of(r"void\s+MemoryLeakOutputStringBuffer::reportMemoryLeak\s*\([^)]*\)\s*\{", "leakFmt")
-    want_leak = ('if (total_leaks_ == 0) { addMemoryLeakHeader(); } total_leaks_++; outputBuffer_.add(F, '
-                 'leak->number_, (unsigned long) leak->size_, leak->file_, (int) leak->line_, leak->allocator_->alloc_name(), (void*) leak->memory_); '
-                 'outputBuffer_.addMemoryDump(leak->memory_, leak->size_); '
-                 'if (SimpleString::StrCmp(leak->allocator_->alloc_name(), (const char*) F) == 0) giveWarningOnUsingMalloc_ = true;')
-    expect_shape("reportMemoryLeak", re.sub(LIT, "F", leak), want_leak)
     bs = first_literal_arg(leak, "(const char*)", {}, 0) if False else literal_concat(re.findall(r"\(const char\*\)\s*(" + LIT + ")", leak)[0][0])
     out.append("def mallocName : Bytes := %s" % lean_bytes(bs))
-    stop = function_body(src, r"void\s+MemoryLeakOutputStringBuffer::stopMemoryLeakReporting\s*\(\s*\)\s*\{")
-    expect_shape("stopMemoryLeakReporting", stop,
-                 "if (total_leaks_ == 0) { addNoMemoryLeaksMessage(); return; } "
-                 "bool buffer_reached_its_capacity = outputBuffer_.reachedItsCapacity(); outputBuffer_.resetWriteLimit(); "
-                 "if (buffer_reached_its_capacity) addErrorMessageForTooMuchLeaks(); addMemoryLeakFooter(total_leaks_); "
-                 "if (giveWarningOnUsingMalloc_) addWarningForUsingMalloc();")
-    rf = function_body(src, r"void\s+MemoryLeakOutputStringBuffer::reportFailure\s*\([^)]*\)\s*\{")
-    expect_shape("reportFailure", rf,
-                 'outputBuffer_.add("%s", message); addAllocationLocation(allocFile, allocLine, allocSize, allocAllocator); '
-                 'addDeallocationLocation(freeFile, freeLine, freeAllocator); reporter->fail(toString());')
+    # stopMemoryLeakReporting, reportMemoryLeak, reportFailure: statement lists from the clang AST (extract_diagbuf.py)
     for fn, lean in (("reportDeallocateNonAllocatedMemoryFailure", "msgNonAllocated"),
                      ("reportAllocationDeallocationMismatchFailure", "msgMismatch"),
                      ("reportMemoryCorruptionFailure", "msgCorruption")):
@@ -418,24 +382,8 @@ def extract():
         if text not in ns:
             PROBLEMS.append("%s is no longer `%s`" % (what, text))
 
-    # the five first-difference scans (model: Diag.scan / Diag.scanBin)
-    n = norm(tf)
-    scans = {
-        "CheckEqualFailure raw scan": "for(failStart=0;actual.at(failStart)==expected.at(failStart)&&actual.at(failStart)!='\\0';failStart++);",
-        "StringEqualFailure raw scan": "for(failStart=0;actual[failStart]==expected[failStart]&&actual[failStart]!='\\0';failStart++);",
-        "StringEqualNoCaseFailure raw scan": "for(failStart=0;SimpleString::ToLower(actual[failStart])==SimpleString::ToLower(expected[failStart])&&actual[failStart]!='\\0';failStart++);",
-        "printable scan": "for(failStartPrintable=0;printableActual.at(failStartPrintable)==printableExpected.at(failStartPrintable)&&printableActual.at(failStartPrintable)!='\\0';failStartPrintable++);",
-        "no-case printable scan": "for(failStartPrintable=0;SimpleString::ToLower(printableActual.at(failStartPrintable))==SimpleString::ToLower(printableExpected.at(failStartPrintable))&&printableActual.at(failStartPrintable)!='\\0';failStartPrintable++);",
-        "BinaryEqualFailure scan": "for(failStart=0;failStart<size&&actual[failStart]==expected[failStart];failStart++);",
-        "BinaryEqualFailure window offset": "message_+=createDifferenceAtPosString(actualHex,(failStart*3+1),failStart);",
-        "string window offset": "message_+=createDifferenceAtPosString(printableActual,failStartPrintable,failStart);",
-    }
-    counts = {"printable scan": 2, "string window offset": 3}
-    for what, text in scans.items():
-        if n.count(text) != counts.get(what, 1):
-            PROBLEMS.append("%s is no longer `%s` (found %d times)" % (what, text, n.count(text)))
-    if n.count("for(") != 7:
-        PROBLEMS.append("TestFailure.cpp has %d for-loops, the model mirrors 7" % n.count("for("))
+    # the seven first-difference scans and the createDifferenceAtPosString calls: translated from the clang AST by
+    # translate/extract_diagfailure.py (Gen/DiagnosticsFailure.lean), tied to Diag.scan / Diag.scanBin in Props/C14.lean
 
     out.append("end Gen.Diag")
     return "\n".join(out) + "\n"
